@@ -198,7 +198,7 @@ func (c *channel) Close(err error) {
 		// wait async send finished.
 		if nil != c.writeQueue {
 			var maxWaitNum int
-			for (c.untilWrite || maxWaitNum < 10) && atomic.LoadInt32(&c.running) != idle {
+			for (c.untilWrite || maxWaitNum < 10) && c.hasPendingWrites() {
 				maxWaitNum++
 				time.Sleep(time.Millisecond * 100)
 			}
@@ -451,6 +451,20 @@ func (c *channel) asyncWritev(ctx context.Context, p [][]byte) (int64, error) {
 		c.executor.Exec(c.writeOnce)
 	}
 	return dataLen, nil
+}
+
+// hasPendingWrites reports whether accepted packets are still queued or being sent.
+// The queue must be inspected before the sender flag: the sender releases the flag
+// before it re-checks the queue, so an idle flag alone does not mean that everything was sent.
+func (c *channel) hasPendingWrites() bool {
+	if len(c.writeQueue) > 0 {
+		// queued packets without a sender (e.g. the previous one failed): start one.
+		if atomic.CompareAndSwapInt32(&c.running, idle, running) {
+			c.executor.Exec(c.writeOnce)
+		}
+		return true
+	}
+	return atomic.LoadInt32(&c.running) != idle
 }
 
 // IsActive return true if the Channel is active and so connected
